@@ -202,8 +202,8 @@ fn norm(s: &str) -> &str {
 }
 
 pub fn run_c20(ctx: &Ctx) -> ! {
-    let nframes = ctx.tier.pick(240_000u64, 6_000_000);
-    let nhist = ctx.tier.pick(8_000u32, 400_000);
+    let nframes = ctx.tier.pick(240_000u64, 24_000_000);
+    let nhist = ctx.tier.pick(8_000u32, 1_200_000);
     let mut st = parallel(|w, st| {
         let mut rng = ctx.rng(20, w as u64);
         let mut worker = Worker::spawn();
